@@ -133,6 +133,11 @@ class _Subst(ast.NodeTransformer):
                 isinstance(node.slice.value, int) and -len(node.value.elts) <= node.slice.value < len(node.value.elts) and \
                 not any(isinstance(e, ast.Starred) for e in node.value.elts):
             return node.value.elts[node.slice.value]
+        # a non-negative constant index before any starred element of the display
+        if isinstance(node.value, (ast.Tuple, ast.List)) and isinstance(node.slice, ast.Constant) and isinstance(node.slice.value, int) and \
+                not isinstance(node.slice.value, bool) and 0 <= node.slice.value < len(node.value.elts) and \
+                not any(isinstance(e, ast.Starred) for e in node.value.elts[:node.slice.value + 1]):
+            return node.value.elts[node.slice.value]
         return node
 
     def visit_Lambda(self, node):
@@ -504,6 +509,8 @@ class Explorer:
             return []
         if isinstance(st, ast.Assert):
             t = subst(st.test, env)
+            if _self_evident(t, self.scope if self.fold_tests else None):
+                return [p]                  # an assertion the bindings of this path already decide says nothing
             p.conds.append((t, True, st.test))
             return [p]
         if isinstance(st, ast.Delete):
@@ -514,6 +521,23 @@ class Explorer:
         if isinstance(st, ast.FunctionDef):
             env.pop(st.name, None)
         return [p]
+
+
+def _self_evident(t, scope):
+    """a test that holds whatever the inputs are, after the path's bindings were substituted: `x is x`, `x == x` on call-free
+    operands, a conjunction of such, or a test the constant folder decides as true"""
+    if isinstance(t, ast.BoolOp) and isinstance(t.op, ast.And):
+        return all(_self_evident(v, scope) for v in t.values)
+    if isinstance(t, ast.Compare) and len(t.ops) == 1 and isinstance(t.ops[0], (ast.Is, ast.Eq)) and norm(t.left) == norm(t.comparators[0]) and \
+            not any(isinstance(x, ast.Call) for x in ast.walk(t)):
+        return True
+    if scope is not None:
+        try:
+            v = fold(t, scope)
+            return v is not UNKNOWN and bool(v) is True
+        except Exception:
+            return False
+    return False
 
 
 PURE_CALLS = {
